@@ -106,7 +106,7 @@ def project(obj, codec):
             ncons = sum(len(v) for v in cd.values())
             for rel in sorted(cd):
                 for p in cd[rel]:
-                    cons.append([rel, [[[codec.spec(x) for x in k], as_int(v)] for k, v in dict.items(p)]])
+                    cons.append([rel, [[[codec.spec(x) for x in k], as_int(v)] for k, v in dict.items(p)], type(p).__name__])
         except Exception:
             anc, ncons, cons = BAD, BAD, []
     try:
